@@ -2702,8 +2702,11 @@ func (p *parser) parseLambdaExpr(allowTuple, allowCmd, allowRangeExpr bool) (x a
 			RhsHasParen: rhsHasParen,
 		}, false
 	} else if isTuple && !allowTuple {
-		p.error(x.(*tupleExpr).opening, msgTupleNotSupported)
+		t := x.(*tupleExpr)
+		p.error(t.opening, msgTupleNotSupported)
 		p.advance(stmtStart)
+		// don't let the (internal) tuple node escape to callers that did not ask for it
+		x, isTuple = &ast.BadExpr{From: t.opening, To: t.closing}, false
 	}
 	return
 }
